@@ -41,6 +41,7 @@ def write_replay(prop, o, r, kind):
     h = hashlib.sha256(o["name"].encode()).hexdigest()[:10]
     path = os.path.join(ROOT, "replays", "%s-%s.json" % (prop, h))
     rep = {"property": prop, "obligation": o["name"], "function": r.get("qualname"), "source_sha": r.get("sha"),
+           "variant": r.get("variant"),
            "kind": kind, "status": o["status"], "outcome": o.get("outcome"), "witness": o.get("model"),
            "path_condition": o.get("pc"), "solver": {"backend": o.get("backend"), "reason": o.get("reason")},
            "smt2": (o.get("smt2") or "")[:200000],
@@ -87,6 +88,7 @@ def conclude(prop, tier, seed, results, extras, wall, partial=False):
         print("CHECKER-CRASH property=%s" % prop)
         return 3
     nob = ndis = 0
+    known_hits = {}
     by_backend = {}
     solver_s = 0.0
     refuted, undecided, unsupported = [], [], []
@@ -109,6 +111,12 @@ def conclude(prop, tier, seed, results, extras, wall, partial=False):
         for n in r.get("notes", []):
             assumptions.add("bounded cut in %s: %s" % (r["variant"], n))
         for o in r["obligations"]:
+            cl = o["name"].rsplit("/", 1)[1]
+            if cl[:1] == "C" and cl[3:4] == ":" and cl[:3] != prop:
+                continue          # clause that belongs to another property's check
+            if prop == "C02" and r.get("module") == "contracts.c01_simplifier" and not cl.startswith("C02:") \
+                    and not cl.startswith("requires:") and cl != "no-exception":
+                continue
             nob += 1
             fe["obligations"] += 1
             solver_s += o.get("time", 0)
@@ -117,16 +125,28 @@ def conclude(prop, tier, seed, results, extras, wall, partial=False):
                 by_backend[o["backend"]] = by_backend.get(o["backend"], 0) + 1
                 if len(samples) < 3 and "value" in o["name"]:
                     samples.append({"obligation": o["name"], "status": "proved", "backend": o["backend"]})
+            elif o["status"] == "known":
+                kid = o.get("known_id")
+                kk = [k for k in kf.get("known", []) if k["id"] == kid]
+                if kk:
+                    known_hits.setdefault(kid, {"k": kk[0], "obls": []})["obls"].append(o["name"])
             elif o["status"] == "refuted":
                 refuted.append((r, o))
             else:
                 undecided.append((r, o))
     violations = []
-    known_hits = {}
     stale = []
     # replay every refuted obligation natively
     kinds = {}
+    seen_classes = set()
     for r, o in refuted:
+        key = (r["variant"], o["name"].rsplit("/", 1)[1])
+        if key in seen_classes and len(seen_classes) > 6:
+            # same function and clause as an already replayed refutation: report, do not replay again
+            path, rep = write_replay(prop, o, r, "same-class")
+            violations.append((path, False, o["name"], {"note": "same function and clause as an earlier refutation"}))
+            continue
+        seen_classes.add(key)
         mod = importlib.import_module(r["module"])
         kind = getattr(mod, "REPLAY_KIND", "generic")
         path, rep = write_replay(prop, o, r, kind)
@@ -146,7 +166,12 @@ def conclude(prop, tier, seed, results, extras, wall, partial=False):
     for r, o in undecided:
         path, rep = write_replay(prop, o, r, "undecided")
     # known findings: must still fail on the real code (otherwise the entry is stale)
-    for kid, h in known_hits.items():
+    for kid, h in list(known_hits.items()):
+        chk = h["k"].get("native_check")
+        if chk:
+            out = native([os.path.join(ROOT, "native", "known.py"), chk])
+            if out.returncode != 1:
+                stale.append(kid)
         print("KNOWN-FINDING: property=%s %s" % (prop, h["k"]["what"]))
     for k in kf.get("known", []):
         if k["property"] == prop and k["id"] not in known_hits and not partial and k.get("source") == "obligation":
